@@ -7,3 +7,5 @@ open FormulaeModel
 #print axioms C04.C04_indicator_full
 #print axioms C04.C04_labels_full
 #print axioms C04.C04_indicator_reduced
+#print axioms Bridge.design_treatmentReduced
+#print axioms Bridge.design_treatment_basis
